@@ -10,14 +10,15 @@ PROPS["C08"] = {
     ],
 }
 PROPS["C09"] = {
-    "bounds": "histories of K<=3 (quick) / K<=5 (thorough) operations over {put(m), get, close+reopen}, messages of 0..2 symbolic bytes (records of 4..6 bytes against symbolic maxBytesPerFile in [1,40]: smaller than, equal to and larger than a segment), symbolic syncEvery in [1,100]",
-    "outside": "messages longer than 2 bytes, histories longer than K, the sync ticker, Empty()/Delete()",
+    "bounds": "histories of K<=3 (quick) / K<=5 (thorough) operations over {put(m), get, close+reopen}, messages of 0..2 symbolic bytes (records of 4..6 bytes against symbolic maxBytesPerFile in [1,40]: smaller than, equal to and larger than a segment), symbolic syncEvery in [1,100]; one concrete-length boundary run around the reader's 4096-byte buffer (a message of 4089..4092 bytes so that the next record's length prefix starts 3..0 bytes before the refill point, then two messages of 1..2 symbolic bytes, with and without close+reopen)",
+    "outside": "messages longer than 2 bytes other than the boundary run, histories longer than K, the sync ticker, Empty()/Delete()",
     "assumptions": ["in-memory file-system model; the consumer observes the queue at quiescence (all goroutines blocked)"],
     "groups": [
         {"pkg": "nsqd", "hdir": "nsqd", "specs": [
             spec("C09/fifo/K=3", "VerifC09Fifo", {"ops": "xxx"}),
             spec("C09/fifo/put,put,get+2", "VerifC09Fifo", {"prefix": "ppg", "ops": "xx"}),
             spec("C09/fifo/put,put,reopen+1", "VerifC09Fifo", {"prefix": "ppr", "ops": "x"}),
+            spec("C09/fifo/read-buffer-boundary", "VerifC09ReadBuffer"),
             spec("C09/fifo/K=4", "VerifC09Fifo", {"ops": "xxxx"}, tier="thorough"),
             spec("C09/fifo/K=5", "VerifC09Fifo", {"ops": "xxxxx"}, tier="thorough")],
          "opts": {"thorough": {"budget_s": 7000}}},
